@@ -366,3 +366,43 @@ package stream
 //@   modifies metaReplacedAtomically
 //@   allow panic when true
 //@   ensures  returns-only-after-an-atomic-durable-replace: metaReplacedAtomically
+//
+//@ section C04 C05
+//
+// The introducers: every one builds a new snapshot from the pinned current one, publishes it and then persists the manifest
+// of THAT snapshot - the one just published - never the manifest of the snapshot it replaced (which would make the garbage
+// collector delete the only live manifest). Thin contracts.
+//@ ghost var publishedSnapshot *snapshot
+//@ func snapshot.merge
+//@   assumed builds the next snapshot value: the current parts plus the flushed ones
+//@   pure
+//@ func snapshot.remove
+//@   assumed builds the next snapshot value: the current parts minus the listed ones
+//@   pure
+//@ func snapshot.copyAllTo
+//@   assumed builds the next snapshot value: all current parts
+//@   pure
+//@ func tsTable.replaceSnapshot
+//@   assumed publishes next under the table lock and releases the table's reference on the old snapshot; recorded in a ghost
+//@   modifies publishedSnapshot
+//@   ensures  publishedSnapshot == next
+//@ func tsTable.persistSnapshot
+//@   assumed writes the manifest of the given snapshot and registers it with the garbage collector
+//@ func tsTable.introduceSync#persists-what-it-published
+//@   mode int
+//@   opt only-stated
+//@   requires tst != nil && nextIntroduction != nil
+//@   modifies publishedSnapshot
+//@   at-call persistSnapshot requires the-manifest-is-that-of-the-snapshot-just-published: arg0 == publishedSnapshot && fresh(arg0)
+//@ func tsTable.introduceMerged#persists-what-it-published
+//@   mode int
+//@   opt only-stated
+//@   requires tst != nil && nextIntroduction != nil
+//@   modifies publishedSnapshot
+//@   at-call persistSnapshot requires the-manifest-is-that-of-the-snapshot-just-published: arg0 == publishedSnapshot && fresh(arg0)
+//@ func tsTable.introduceFlushed#persists-what-it-published
+//@   mode int
+//@   opt only-stated
+//@   requires tst != nil && nextIntroduction != nil
+//@   modifies publishedSnapshot
+//@   at-call persistSnapshot requires the-manifest-is-that-of-the-snapshot-just-published: arg0 == publishedSnapshot && fresh(arg0)
